@@ -71,7 +71,15 @@ func runPermGroup(sc *gScen, k, natural int, tags []string, w *hx.Writer) {
 		}
 	}
 	if okCount != 0 && okCount != len(runs) && len(ties) == 0 {
-		if earlyFaultOnly && !hasAfterSub {
+		if byNameClosed(sc) {
+			// every point names its one candidate and nothing collects components by type: no enumeration order enters any
+			// choice, the components are created in the order of their names — the outcome is a function of the component set
+			var sts []string
+			for _, r := range runs {
+				sts = append(sts, r.status)
+			}
+			add("c10-outcome", "success depends on the registration / enumeration order although every injection point of the population is BY NAME (one candidate each) and no component is collected by type: %v", sts)
+		} else if earlyFaultOnly && !hasAfterSub {
 			add("c10-d6-early-callback-on-cycle", "start-up succeeds under %d of %d enumeration orders: the early-reference callback fails for a component on a cycle, and whether that component is asked for its early reference depends on where the cycle is entered", okCount, len(runs))
 		} else if hasAfterSub {
 			add("c10-d6-init-substitute-on-cycle", "start-up succeeds under %d of %d enumeration orders: a component on a cycle is substituted at initialisation and the stale-version check depends on where the cycle is entered", okCount, len(runs))
@@ -166,6 +174,61 @@ func runPermGroup(sc *gScen, k, natural int, tags []string, w *hx.Writer) {
 	}
 }
 
+// byNameClosed: a population in which no enumeration order can enter any decision — every injection point is a by-name wire
+// through an `any` slot (at most one candidate), there are no runners, closers, zero-size components or post-processors
+// (nothing is collected by type by the application, nothing is created in the boot phase in enumeration order), no faults
+// and no configuration slots. Substitution is allowed: with the creation order fixed by the names, where a cycle is entered
+// is fixed too.
+func byNameClosed(sc *gScen) bool {
+	if sc.loaderFail || sc.scanFail || sc.zs != 0 || sc.hist != 0 || len(sc.prefill) != 0 || len(sc.nodes) == 0 {
+		return false
+	}
+	for _, n := range sc.nodes {
+		u := utInfos[n.ty]
+		if u.pp || u.runner || u.closer || hasStaticSlots(n.ty) || n.flt != 0 || n.cfg != 0 || n.fetch != "" || n.progQ != "" || n.extra || n.runAfter != 0 ||
+			n.early >= foreignVer || n.after >= foreignVer {
+			return false
+		}
+		for slot, tag := range n.slots {
+			if slot != "A0" && slot != "A1" && slot != "A2" || tag[0] != 'w' {
+				return false
+			}
+			target := strings.TrimSuffix(tag[1:], ",required=false")
+			if target == "" || strings.Contains(target, ",") {
+				return false
+			}
+		}
+	}
+	return true
+}
+
+// a cycle whose edges are all BY NAME, one member substituted after initialization (sometimes early as well): whether the
+// start is refused depends on which member is created first — on the NAMES, and on nothing else
+func genNamedCycle(r *hx.Rng) *gScen {
+	g := newBuilder(r)
+	plain := func(u utInfo) bool { return !u.pp && !u.runner && !u.closer && !u.lazy }
+	k := 2 + r.Intn(2)
+	var cyc []int
+	for i := 0; i < k; i++ {
+		cyc = append(cyc, g.addNode(g.randType(plain), false))
+	}
+	for i := 0; i < k; i++ {
+		g.edgeByName(cyc[i], cyc[(i+1)%k], false)
+	}
+	m := cyc[r.Intn(k)]
+	switch r.Intn(3) {
+	case 0, 1:
+		g.sc.nodes[m].after = 2
+	default:
+		g.sc.nodes[m].early, g.sc.nodes[m].after = 1, 2
+	}
+	if r.P(1, 2) { // a bystander that holds a member
+		b := g.addNode(g.randType(plain), false)
+		g.edgeByName(b, cyc[r.Intn(k)], false)
+	}
+	return g.sc
+}
+
 func gpermCorpus(w *hx.Writer) {
 	// the representative of known finding D6: cycle 1↔2 entered through a slice of holder 0, node 1 substituted at initialisation
 	sc := &gScen{rankSeed: 11}
@@ -224,6 +287,15 @@ func gpermGen(rng *hx.Rng, n int, tier string, w *hx.Writer) {
 			runPermGroup(genTwinIfaces(r7.Fork()), k, nat, []string{"twinifaces"}, w)
 			runPermGroup(genProgQualified(r7.Fork()), k, nat, []string{"progq"}, w)
 			runPermGroup(genOddProcessors(r7.Fork()), k, nat, []string{"oddpp"}, w)
+		}
+	}
+	// ninth round (drawn after everything else): runners that build on each other by the ordering contract, by-name cycles
+	// with a member substituted at initialisation
+	r9 := rng.Fork()
+	for i := 0; i < n/25+2; i++ {
+		if active() {
+			runPermGroup(genRunnerChain(r9.Fork()), k, nat, []string{"runnerchain"}, w)
+			runPermGroup(genNamedCycle(r9.Fork()), k, nat, []string{"namedcycle"}, w)
 		}
 	}
 }
